@@ -176,6 +176,15 @@ def check_string(cx, http, DS, s):
         d = cc.to_header()
         r = http.parse_cache_control_header(d, None, DS.ResponseCacheControl)
         cx.eq("cache-control", s, d, dict(r), dict(cc))
+        # the typed properties of the parsed object read what the typed properties of the sender were given - also an
+        # empty field-name list (private="") next to a bare directive
+        cc2 = DS.ResponseCacheControl()
+        cc2.private = s
+        cc2.no_cache = True if len(s) % 2 else s
+        cc2.max_age = len(s)
+        d2 = cc2.to_header()
+        r2 = http.parse_cache_control_header(d2, None, DS.ResponseCacheControl)
+        cx.eq("cache-control", s, d2, (r2.private, r2.no_cache, r2.max_age), (cc2.private, cc2.no_cache, cc2.max_age), "C06/cache-control-typed-properties")
         a = DS.Authorization("digest", {"username": s, "realm": "r"})
         d = a.to_header()
         cx.eq("authorization", s, d, DS.Authorization.from_header(d), a, "C06/authorization-params")
